@@ -261,6 +261,27 @@ def gen_unicode():
     for name, rs in tables.items():
         out.append("Definition %s : list (N * N) := [%s]." % (name, "; ".join("(%d, %d)" % r for r in rs)))
         out.append("")
+    # full case mappings (str.lower / str.upper per character), chunked by c >> 8
+    for name, fn in (("uni_lower", str.lower), ("uni_upper", str.upper)):
+        chunks = {}
+        for c in range(128, 0x110000):
+            if 0xD800 <= c <= 0xDFFF:
+                continue
+            m = fn(chr(c))
+            if m != chr(c):
+                chunks.setdefault(c >> 8, []).append((c, [ord(x) for x in m]))
+        body = ";\n  ".join(
+            "(%d, [%s])" % (h, "; ".join("(%d, [%s])" % (c, "; ".join(map(str, m))) for c, m in ents))
+            for h, ents in sorted(chunks.items())
+        )
+        out.append("Definition %s : list (N * list (N * list N)) := [\n  %s]." % (name, body))
+        out.append("")
+    # characters whose NFKC form contains a URL delimiter (urlsplit's _checknetloc)
+    import unicodedata
+    bad = [c for c in range(128, 0x110000) if not (0xD800 <= c <= 0xDFFF)
+           and any(d in unicodedata.normalize("NFKC", chr(c)) for d in "/?#@:")]
+    out.append("Definition nfkc_delim_chars : list N := [%s]." % "; ".join(map(str, bad)))
+    out.append("")
     write_if_changed(os.path.join(GEN, "Unicode.v"), "\n".join(out) + "\n")
 
 
